@@ -40,7 +40,9 @@ type c03Env struct {
 }
 
 func newC03Env(n int) *c03Env {
-	c := chainkit.NewChain(theT, n, chainkit.Options{})
+	// (on the 7-key committee only 4 members are consensus nodes: Alphabet and committee are defined by the
+	// committee, not by the validator set)
+	c := chainkit.NewChain(theT, n, chainkit.Options{Validators: map[int]int{7: 4}[n]})
 	fs := chainkit.NewFS(c, chainkit.FSOptions{Contracts: []string{"netmap", "balance", "neofsid", "container", "proxy", "audit", "reputation", "alphabet"},
 		NetmapConfig: []any{"ContainerFee", int64(0), "ContainerAliasFee", int64(0)}})
 	e := &c03Env{c: c, h: fs.H}
